@@ -4,6 +4,9 @@ Each entry: (keyword in the commit subject, property, what failed before the fix
 import json, subprocess, os
 ROOT = os.path.dirname(os.path.dirname(os.path.abspath(__file__)))
 M = [
+ ('interpreter implements the `->` and `~>` member operators', 'C02', '`let ao = new { n: 3 } as { ? }; let v = ao->n as ?int;` on the interpreter: memberExpression looked the name up in the builtin member table and ended in the host panic `Field \'n\' not found on value of type \'{ ? }\'` (every `->` / `~>` access)'),
+ ('on a missing field pushes one value, not two', 'C01', '`let ao = new { ? }; println([?1, ao->nope as ?int, ?2]);` on the VM: Opcode_Member_Anyobj pushed `none` and then a second option built from the nil field (stack residue; inside a list literal the next hostcall hit a failed type assertion)'),
+ ("see their module's globals, not the locals of their caller", 'C04', '`let total = 100; fn show() { println(total); } fn main() { let total = 0; show(); }` printed 0 on the interpreter (100 on the VM): a declared function ran on top of the scope stack of its caller, so a global shadowed by a local of the caller resolved to that local (dynamic scoping)'),
  ('object literal with a field of function', 'C02', '`fn f(a: int) -> int { a } fn main() { let v = new { a: f }; }`: compileExpr pre-filled the fields with value.ZeroValue(type), which panics `Invalid type: fn(a: int) -> int` for function, any and never typed field expressions (a host panic in the compiler)'),
  ('match without default arm whose arms all diverge', 'C02', '`fn f(n: int) { match n { 1 => { return; } }; println(n); } f(3)`: the analyzer typed the match `never` although no arm may match; the VM popped a result that was never pushed (index out of range [-1] in Core.pop), the optimizer dropped the statements behind the match'),
  ('object keys that are keywords are printed quoted', 'C19', '`let o = new { "fn": 1, "let": 2 };`: both printers wrote the keys bare (`fn: 1`), the printed program no longer parses (`Expected identifier, _, or string, found fn`); IsIdent only looked at the shape of the word'),
